@@ -16,3 +16,4 @@ def run(prog, rep):
     r_hdr.run_ctor(prog, rep, rule)
     r_order.run_lookup(prog, rep)
     r_key.run_handles_only(prog, rep)
+    r_order.run_name_first(prog, rep)
